@@ -15,6 +15,7 @@ from sqllineage.drawing import draw_lineage_graph
 from sqllineage.io import to_cytoscape
 from sqllineage.utils.constant import LineageLevel
 from sqllineage.utils.helpers import split, trim_comment
+from sqllineage.utils.verif import tap
 
 logger = logging.getLogger(__name__)
 
@@ -199,10 +200,13 @@ Target Tables:
                 )
             self._stmt = split(self._sql.strip())
 
+        tap("run.begin", runner=self)
         with self._metadata_provider.session() as session:
             stmt_holders = []
             for stmt in self._stmt:
+                tap("stmt.begin", runner=self, index=len(stmt_holders), text=stmt)
                 stmt_holder = analyzer.analyze(stmt, session.metadata_provider)
+                tap("stmt.analyzed", runner=self, index=len(stmt_holders), text=stmt, holder=stmt_holder)
                 if write := stmt_holder.write:
                     tgt_table = next(iter(write))
                     if isinstance(tgt_table, Table) and (
@@ -210,11 +214,14 @@ Target Tables:
                     ):
                         session.register_session_metadata(tgt_table, tgt_columns)
                 stmt_holders.append(stmt_holder)
+                tap("stmt.end", runner=self, index=len(stmt_holders) - 1, text=stmt, holder=stmt_holder)
             self._stmt_holders = stmt_holders
             self._sql_holder = SQLLineageHolder.of(
                 session.metadata_provider, *self._stmt_holders
             )
+            tap("run.assembled", runner=self)
         self._evaluated = True
+        tap("run.end", runner=self)
 
     @staticmethod
     def supported_dialects() -> dict[str, list[str]]:
